@@ -39,6 +39,7 @@ class Ctx:
         self.reads = {}      # ast.dump(expression) -> T   (declared meaning of an expression the fragment does not read itself)
         self.calls = {}      # function name -> Gallina function on ints
         self.stores = {}     # ast.dump(assignment target) -> (state field, type)
+        self.dicts = {}      # ast.dump(expression denoting a dict) -> (state variable, type)
 
     def gensym(self):
         self.fresh += 1
@@ -97,6 +98,8 @@ def to_optz(ctx, t):
 def to_bool(ctx, t):
     if t.ty == "bool":
         return t
+    if t.ty == "zlist":
+        return bind_all(ctx, [t], lambda n: T("(match %s with [] => false | _ => true end)" % n[0], "bool"))
     if t.ty == "optZ":
         return bind_all(ctx, [t], lambda n: T("(truthy_o %s)" % n[0], "bool"))
     if t.ty == "Z":
@@ -295,6 +298,9 @@ def expr(ctx, e):
             and isinstance(e.args[0], ast.Name) and isinstance(ctx.params.get(e.args[0].id), tuple)
             and ctx.params[e.args[0].id][0] == "objlist"):
         return T("(zlen %s)" % e.args[0].id, "Z")
+    if (isinstance(e, ast.Call) and isinstance(e.func, ast.Name) and e.func.id == "len" and len(e.args) == 1
+            and isinstance(e.args[0], ast.Name) and ctx.state.get(e.args[0].id) == "zlist"):
+        return T("(zlen (v_%s s))" % e.args[0].id, "Z")
     if isinstance(e, ast.List) and not e.elts:
         return T("[]", "zlist")
     # mapping.<dict field>.get(key, [])
@@ -380,6 +386,16 @@ def stmts(ctx, body):
 
 
 def stmt(ctx, s):
+    # d[k] = v on a declared dict expression (an attribute of an object the fragment does not model)
+    if (isinstance(s, ast.Assign) and len(s.targets) == 1 and isinstance(s.targets[0], ast.Subscript)
+            and ast.dump(s.targets[0].value) in ctx.dicts):
+        t = s.targets[0]
+        nm, dty = ctx.dicts[ast.dump(t.value)]
+        ix = t.slice.value if isinstance(t.slice, ast.Index) else t.slice
+        k = to_z(ctx, expr(ctx, ix))
+        v = to_optz(ctx, expr(ctx, s.value)) if dty == "odictOptZ" else coerce(ctx, expr(ctx, s.value), "zlist")
+        r = bind_all(ctx, [k, v], lambda n: T("(set_v_%s s (oset (v_%s s) %s %s))" % (nm, nm, n[0], n[1]), "st"))
+        return lifted(r)
     # d[k] = v on an ordered dict local
     if (isinstance(s, ast.Assign) and len(s.targets) == 1 and isinstance(s.targets[0], ast.Subscript)
             and isinstance(s.targets[0].value, ast.Name) and ctx.state.get(s.targets[0].value.id) == "odictOptZ"):
@@ -439,6 +455,10 @@ def stmt(ctx, s):
     if (isinstance(s, ast.Expr) and isinstance(s.value, ast.Call) and isinstance(s.value.func, ast.Attribute)
             and s.value.func.attr == "insert"):
         return insert_front(ctx, s)
+    if (isinstance(s, ast.Expr) and isinstance(s.value, ast.Call) and isinstance(s.value.func, ast.Attribute)
+            and s.value.func.attr == "append" and isinstance(s.value.func.value, ast.Name)
+            and ctx.state.get(s.value.func.value.id) == "zlist" and len(s.value.args) == 1):
+        return append_int(ctx, s)
     if isinstance(s, ast.Expr) and isinstance(s.value, ast.Call):
         call = s.value
         if isinstance(call.func, ast.Name) and call.func.id in ctx.closures and not call.args and not call.keywords:
@@ -472,6 +492,14 @@ def stmt(ctx, s):
     raise Decline("statement " + type(s).__name__)
 
 
+def append_int(ctx, s):
+    c = s.value
+    nm = c.func.value.id
+    v = to_z(ctx, expr(ctx, c.args[0]))
+    r = bind_all(ctx, [v], lambda n: T("(set_v_%s s (v_%s s ++ [%s]))" % (nm, nm, n[0]), "st"))
+    return lifted(r)
+
+
 def insert_front(ctx, s):
     c = s.value
     if not (isinstance(c.func.value, ast.Name) and ctx.state.get(c.func.value.id) == "zlist" and len(c.args) == 2
@@ -481,6 +509,16 @@ def insert_front(ctx, s):
     v = to_z(ctx, expr(ctx, c.args[1]))
     r = bind_all(ctx, [v], lambda n: T("(set_v_%s s (%s :: v_%s s))" % (nm, n[0], nm), "st"))
     return lifted(r)
+
+
+def _plain_range(it):
+    """range(n) / range(a, b) / reversed(range(...)) -> (reversed?, args) or None"""
+    rev = False
+    if isinstance(it, ast.Call) and isinstance(it.func, ast.Name) and it.func.id == "reversed" and len(it.args) == 1:
+        rev, it = True, it.args[0]
+    if isinstance(it, ast.Call) and isinstance(it.func, ast.Name) and it.func.id == "range" and len(it.args) in (1, 2) and not it.keywords:
+        return rev, it.args
+    return None
 
 
 def for_loop(ctx, s):
@@ -509,6 +547,17 @@ def for_loop(ctx, s):
         if not (a.pure and b.pure):
             raise Decline("range bounds that can raise")
         lst = "(range2 %s %s)" % (a.text, b.text)
+        binder = s.target.id
+        new = {s.target.id: T(s.target.id, "Z")}
+    elif (isinstance(s.target, ast.Name) and _plain_range(it) is not None):
+        rev, rargs = _plain_range(it)
+        bounds = [to_z(ctx, expr(ctx, x)) for x in rargs]
+        if not all(b.pure for b in bounds):
+            raise Decline("range bounds that can raise")
+        lo, hi = ("0", bounds[0].text) if len(bounds) == 1 else (bounds[0].text, bounds[1].text)
+        lst = "(zrange %s %s)" % (lo, hi)
+        if rev:
+            lst = "(rev %s)" % lst
         binder = s.target.id
         new = {s.target.id: T(s.target.id, "Z")}
     elif isinstance(it, ast.Name) and ctx.state.get(it.id) == "zlist" and isinstance(s.target, ast.Name):
@@ -1167,6 +1216,55 @@ def translate_relax_step(tree):
 
 
 # ---------------------------------------------------------------------------------------------------------
+# _blocks.blocks_to_bytes: the body of the final loop - the line entries of an instruction and of its EXTENDED_ARG
+# prefixes, and the code units written for it
+
+def translate_assemble_step(tree):
+    f = find_def(tree.body, "blocks_to_bytes")
+    body = list(f.body)
+    # bytes_: list[int] = [] ; line_mapping = LineMapping() ; for block_index, block in enumerate(blocks): for ... : <body>
+    idx = None
+    for i, st in enumerate(body):
+        if isinstance(st, (ast.AnnAssign, ast.Assign)) and isinstance((st.target if isinstance(st, ast.AnnAssign) else st.targets[0]), ast.Name) \
+                and (st.target if isinstance(st, ast.AnnAssign) else st.targets[0]).id == "bytes_":
+            idx = i
+    if idx is None or not (isinstance(body[idx].value, ast.List) and not body[idx].value.elts):
+        raise Decline("bytes_ = []")
+    if not (ast.dump(body[idx + 1]) == ast.dump(ast.parse("line_mapping = LineMapping()").body[0])):
+        raise Decline("line_mapping = LineMapping()")
+    loop = body[idx + 2]
+    if not (isinstance(loop, ast.For) and ast.dump(loop.iter) == _load("enumerate(blocks)") and len(loop.body) == 1
+            and isinstance(loop.body[0], ast.For) and ast.dump(loop.body[0].iter) == _load("enumerate(block)")
+            and ast.dump(loop.body[0].target) == ast.dump(ast.parse("for instruction_index, instruction in x: pass").body[0].target)):
+        raise Decline("assembly loops")
+    inner = [s for s in loop.body[0].body if not (isinstance(s, ast.Expr) and isinstance(s.value, ast.Constant))]
+    state = {"offset": "Z", "arg_value": "Z", "n_args": "Z", "bytes_": "zlist", "lines": "odictOptZ", "adds": "odictZlist"}
+    params = {"line": "optZ", "lineoffs": "zlist", "nargs": "optZ", "v": "Z", "EXTENDED_ARG": "Z"}
+    ctx = Ctx(state, params, {}, RECORDS, {})
+    ctx.reads = {
+        _load("args[block_index, instruction_index]"): T("v", "Z"),
+        _load("instruction._n_args_override"): T("nargs", "optZ"),
+        _load("instruction.line_number"): T("line", "optZ"),
+        _load("instruction._line_offsets_override"): T("lineoffs", "zlist"),
+        _load("list(instruction._line_offsets_override)"): T("lineoffs", "zlist"),
+        # dis.opmap[instruction.name]: KeyError for a name the interpreter does not know
+        _load("dis.opmap[instruction.name]"): T("opcode_of", "Z", False),
+        _load("dis.EXTENDED_ARG"): T("EXTENDED_ARG", "Z"),
+    }
+    ctx.calls = {"_instrsize": "PCD.Gen.Src.instrsize"}
+    ctx.dicts = {_load("line_mapping.offset_to_line"): ("lines", "odictOptZ"),
+                 _load("line_mapping.offset_to_additional_line_offsets"): ("adds", "odictZlist")}
+    for n in ast.walk(ast.Module(body=inner, type_ignores=[])):
+        if isinstance(n, ast.Name) and isinstance(n.ctx, ast.Store) and n.id not in state and n.id != "i":
+            raise Decline("local of the assembly loop: " + n.id)
+    text = stmts(ctx, inner)
+    fields = [("v_" + a, COQ_TY[t], DEFAULT[t]) for a, t in state.items()]
+    return ("Module AssembleStep.\n%s\n"
+            "Definition step (opcode_of : res Z) (EXTENDED_ARG : Z) (line : option Z) (lineoffs : list Z) (nargs : option Z) (v : Z) (s : st) : res st :=\n  %s.\n"
+            "End AssembleStep.\n" % (record_decl(fields), text))
+
+
+# ---------------------------------------------------------------------------------------------------------
 # _blocks._parse_bytes: a generator over range(0, len(b), 2) with two accumulators
 
 def translate_parse_bytes(tree):
@@ -1229,7 +1327,8 @@ ITEMS = [("expand_items", "_line_mapping.py", translate_expand_items),
          ("relax_step", "_blocks.py", translate_relax_step),
          ("items_to_mapping", "_line_mapping.py", translate_items_to_mapping),
          ("decode_step", "_blocks.py", translate_decode_step),
-         ("split_blocks", "_blocks.py", translate_split_blocks)]
+         ("split_blocks", "_blocks.py", translate_split_blocks),
+         ("assemble_step", "_blocks.py", translate_assemble_step)]
 
 HEADER = ("(* generated by harness/translate_lines.py from /repo/code_data/_line_mapping.py on every run; do not edit *)\n"
           "From PCD Require Import Base.PyBase Base.PyImp Base.Cfg Model.Flags Model.Args Model.Data Model.LineTable Model.Blocks.\nFrom PCD Require Gen.Src.\n\n")
